@@ -151,7 +151,9 @@ def cem_sample(
         * jnp.sqrt(constrained_var)[jnp.newaxis]
         + mean[jnp.newaxis]
     )
-    return samples
+    # rounding (e.g., a mean that sits on a bound) must not move samples
+    # outside of the box
+    return jnp.clip(samples, lb, ub)
 
 
 def cem_update(
